@@ -101,45 +101,78 @@ Proof.
 Qed.
 
 (* ---- Bidirectional, instantiated with constants.CopyBufferSize ---- *)
-Definition tcp_run (sA sB : list byte) (cA cB : list nat) (eA eB : N) (wA wB : bool) (sched : list nat) :=
+(* endpoint A wrapped as cfgA, endpoint B as cfgB; both accept every write *)
+Definition tcp_run_w (cfgA cfgB : wcfg) (sA sB : list byte) (cA cB : list nat) (eA eB : N) (wA wB : bool)
+                     (sched : list nat) :=
   run tsh (nat * tpc) (tstep CopyBufferSize)
-      (tcp_init (dir0 sA cA eA wA None false) (dir0 sB cB eB wB None false)) sched.
+      (tcp_init (dirw sA cA eA wA None false cfgB) (dirw sB cB eB wB None false cfgA)) sched.
 
-Lemma c12_tcp_inv sA sB cA cB eA eB wA wB sched :
-  Inv sA sB (tcp_run sA sB cA cB eA eB wA wB sched).
+(* the endpoint configurations the harness builds with the real constructors (harness/cmd/c12: `wrap`) *)
+Definition wrap_cfg (k : N) : wcfg :=
+  match k with
+  | 0 => cfg_direct                                                                          (* conn with CloseWrite *)
+  | 1 => {| ep_kind := 1; ep_cwfunc := false; ep_writer_cw := false; ep_closefunc := true |}  (* conn without *)
+  | 2 => {| ep_kind := 2; ep_cwfunc := false; ep_writer_cw := false; ep_closefunc := true |}  (* NewReadWriteCloser(r, w, closeFn): the client call sites *)
+  | 3 => {| ep_kind := 2; ep_cwfunc := false; ep_writer_cw := true; ep_closefunc := true |}   (* ... writer = a conn with CloseWrite *)
+  | 4 => {| ep_kind := 2; ep_cwfunc := true; ep_writer_cw := false; ep_closefunc := true |}   (* NewReadWriteCloserWithCloseWrite *)
+  | 5 => {| ep_kind := 2; ep_cwfunc := true; ep_writer_cw := true; ep_closefunc := true |}
+  | _ => {| ep_kind := 2; ep_cwfunc := false; ep_writer_cw := false; ep_closefunc := false |} (* closeFunc == nil *)
+  end.
+
+Lemma c12_tcp_inv cfgA cfgB sA sB cA cB eA eB wA wB sched :
+  Inv sA sB cfgA cfgB (tcp_run_w cfgA cfgB sA sB cA cB eA eB wA wB sched).
 Proof.
-  unfold tcp_run. apply (tcp_all_schedules CopyBufferSize copy_buffer_positive sA sB);
-    unfold no_write_fault, dir0; cbn; auto.
+  unfold tcp_run_w. apply (tcp_all_schedules CopyBufferSize copy_buffer_positive sA sB cfgA cfgB);
+    unfold no_write_fault, dirw; cbn; auto.
 Qed.
 
-Lemma c12_tcp_prefix sA sB cA cB eA eB wA wB sched :
-  let s := tcp_run sA sB cA cB eA eB wA wB sched in
+Lemma c12_tcp_prefix cfgA cfgB sA sB cA cB eA eB wA wB sched :
+  let s := tcp_run_w cfgA cfgB sA sB cA cB eA eB wA wB sched in
   (exists x, sA = d_out (sh_d0 (fst s)) ++ x) /\ (exists y, sB = d_out (sh_d1 (fst s)) ++ y) /\
   sh_io_after_close (fst s) = 0.
-Proof. exact (Inv_prefix sA sB _ (c12_tcp_inv sA sB cA cB eA eB wA wB sched)). Qed.
+Proof. exact (Inv_prefix sA sB cfgA cfgB _ (c12_tcp_inv cfgA cfgB sA sB cA cB eA eB wA wB sched)). Qed.
 
-Lemma c12_tcp_complete sA sB cA cB eA eB wA wB sched :
-  let s := tcp_run sA sB cA cB eA eB wA wB sched in
+Lemma c12_tcp_complete cfgA cfgB sA sB cA cB eA eB wA wB sched :
+  let s := tcp_run_w cfgA cfgB sA sB cA cB eA eB wA wB sched in
   sh_ret (fst s) = true ->
   d_out (sh_d0 (fst s)) = sA /\ d_out (sh_d1 (fst s)) = sB /\
   d_bytes (sh_d0 (fst s)) = lenN sA /\ d_bytes (sh_d1 (fst s)) = lenN sB /\
-  d_cw (sh_d0 (fst s)) = 1 /\ d_cw (sh_d1 (fst s)) = 1 /\
-  sh_ncl_a (fst s) = 1 /\ sh_ncl_b (fst s) = 1 /\ sh_io_after_close (fst s) = 0.
-Proof. exact (Inv_returned CopyBufferSize copy_buffer_positive sA sB _ (c12_tcp_inv sA sB cA cB eA eB wA wB sched)). Qed.
+  (d_cw (sh_d0 (fst s)) = ncw cfgB /\ d_cwf (sh_d0 (fst s)) = ncwf cfgB) /\
+  (d_cw (sh_d1 (fst s)) = ncw cfgA /\ d_cwf (sh_d1 (fst s)) = ncwf cfgA) /\
+  sh_ncl_a (fst s) = ncl cfgA /\ sh_ncl_b (fst s) = ncl cfgB /\ sh_io_after_close (fst s) = 0.
+Proof.
+  exact (Inv_returned CopyBufferSize copy_buffer_positive sA sB cfgA cfgB _
+           (c12_tcp_inv cfgA cfgB sA sB cA cB eA eB wA wB sched)).
+Qed.
 
-Lemma c12_tcp_half_close sA sB cA cB eA eB wA wB sched p0 p1 pm :
-  let s := tcp_run sA sB cA cB eA eB wA wB sched in
+Lemma c12_tcp_half_close cfgA cfgB sA sB cA cB eA eB wA wB sched p0 p1 pm :
+  let s := tcp_run_w cfgA cfgB sA sB cA cB eA eB wA wB sched in
   snd s = [(0%nat, p0); (1%nat, p1); (2%nat, pm)] -> (p0 <> PDone \/ p1 <> PDone) ->
   sh_closed_a (fst s) = false /\ sh_closed_b (fst s) = false /\
-  (p0 = PDone -> d_cw (sh_d0 (fst s)) = 1) /\ (p1 = PDone -> d_cw (sh_d1 (fst s)) = 1).
-Proof. exact (Inv_half_close CopyBufferSize copy_buffer_positive sA sB _ p0 p1 pm (c12_tcp_inv sA sB cA cB eA eB wA wB sched)). Qed.
+  sh_ncl_a (fst s) = 0 /\ sh_ncl_b (fst s) = 0 /\
+  (p0 = PDone -> d_cw (sh_d0 (fst s)) = ncw cfgB /\ d_cwf (sh_d0 (fst s)) = ncwf cfgB) /\
+  (p1 = PDone -> d_cw (sh_d1 (fst s)) = ncw cfgA /\ d_cwf (sh_d1 (fst s)) = ncwf cfgA).
+Proof.
+  exact (Inv_half_close CopyBufferSize copy_buffer_positive sA sB cfgA cfgB _ p0 p1 pm
+           (c12_tcp_inv cfgA cfgB sA sB cA cB eA eB wA wB sched)).
+Qed.
 
-(* non-vacuity / reachability of the returned state: A sends 3 bytes in 1-byte reads and half-closes first,
-   B answers with 2 bytes ending in an error delivered with the data; a fair schedule returns *)
+(* the dispatch table of the seven configurations: (CloseWrite reaching the endpoint, closeWriteFunc calls,
+   Close reaching the endpoint) — the numbers the harness predicate expects from the real constructors *)
+Lemma c12_wrapper_table :
+  map (fun k => (ncw (wrap_cfg k), ncwf (wrap_cfg k), ncl (wrap_cfg k))) [0; 1; 2; 3; 4; 5; 6]
+  = [(1, 0, 1); (0, 0, 1); (0, 0, 1); (1, 0, 1); (0, 1, 1); (0, 1, 1); (0, 0, 0)].
+Proof. vm_compute. reflexivity. Qed.
+
+(* non-vacuity / reachability of the returned state: local side A (a TCP-like conn) sends 3 bytes in 1-byte
+   reads and reaches EOF first; the tunnel B is NewReadWriteCloser(reader, writer-without-CloseWrite, closeFn)
+   and answers with 2 bytes only AFTER A->B has finished and half-closed it; a fair schedule returns with
+   everything delivered and B closed exactly once, at the end *)
 Lemma c12_tcp_returns_example :
-  let s := tcp_run [1; 2; 3] [4; 5] [1%nat; 1%nat] [] 0 1 false true
+  let s := tcp_run_w (wrap_cfg 0) (wrap_cfg 2) [1; 2; 3] [4; 5] [1%nat; 1%nat] [] 0 1 false true
              ([0; 0; 0; 0; 0; 0; 2; 1; 2; 1; 1; 1; 2; 2; 2; 2]%nat) in
   sh_ret (fst s) = true /\ d_out (sh_d0 (fst s)) = [1; 2; 3] /\ d_out (sh_d1 (fst s)) = [4; 5] /\
-  d_err (sh_d0 (fst s)) = 0 /\ d_err (sh_d1 (fst s)) = 1.
+  d_err (sh_d0 (fst s)) = 0 /\ d_err (sh_d1 (fst s)) = 1 /\
+  d_cw (sh_d0 (fst s)) = 0 /\ sh_ncl_b (fst s) = 1.
 Proof. vm_compute. repeat split; reflexivity. Qed.
 Close Scope N_scope.
